@@ -22,7 +22,7 @@ EX = "dclab.rtdc_dataset.export:Export.hdf5"
 ALLF = ["deform", "area_um", "fl1_max", "frame", "image", "image_bg", "mask",
         "contour", "trace", gen.USER_FEAT]
 KINDS = ["dict", "hdf5", "child-dict", "child-hdf5", "basin",
-         "grandchild-hdf5"]
+         "grandchild-hdf5", "basin-perm", "basin-dup"]
 
 
 def masks_for(n, quick):
@@ -58,7 +58,8 @@ class Source:
         self.tables = {"vf-tab": np.rec.fromarrays(
             [np.arange(3.0), np.arange(3.0) ** 2], names=["a", "b"])}
         base = scratch / f"c02_{tag}_{os.getpid()}"
-        if kind in ("hdf5", "child-hdf5", "basin", "grandchild-hdf5"):
+        if kind in ("hdf5", "child-hdf5", "basin", "grandchild-hdf5",
+                    "basin-perm", "basin-dup"):
             p = base.with_suffix(".src.rtdc")
             gen.write_rtdc(p, ev, logs=self.logs, tables=self.tables)
             self.files.append(p)
@@ -109,6 +110,27 @@ class Source:
             self.files.append(p2)
             ds = dclab.new_dataset(p2)
             self.idx = np.arange(n)
+        elif kind in ("basin-perm", "basin-dup"):
+            # the events of this dataset are those of the basin in another
+            # order (a mapping without / with repeated basin events)
+            from dclab.rtdc_dataset.writer import RTDCWriter
+            perm = np.argsort(np.sin(np.arange(n) * 2.3 + seed),
+                              kind="stable")
+            if kind == "basin-dup" and n > 2:
+                perm[1] = perm[-1]
+            p2 = base.with_suffix(".ref.rtdc")
+            with RTDCWriter(p2, mode="reset") as hw:
+                hw.store_metadata(gen.complete_meta(n))
+                hw.store_feature("index_online", ev["index_online"][perm])
+                hw.store_basin("b", "file", "hdf5", [str(self.files[0])],
+                               basin_map=perm.astype(np.uint64))
+                for name, lines in self.logs.items():
+                    hw.store_log(name, lines)
+                for name, t in self.tables.items():
+                    hw.store_table(name, t)
+            self.files.append(p2)
+            ds = dclab.new_dataset(p2)
+            self.idx = np.array(perm)
         self.ds = ds
         self.ev = ev
         # the metadata as they were before any export (an export must not
